@@ -20,7 +20,7 @@ Inductive Matches : regex -> mst -> mst -> Prop :=
 | MSeq a b s1 s2 s3 : Matches a s1 s2 -> Matches b s2 s3 -> Matches (RSeq a b) s1 s3
 | MAltL a b s s' : Matches a s s' -> Matches (RAlt a b) s s'
 | MAltR a b s s' : Matches b s s' -> Matches (RAlt a b) s s'
-| MRep g mn mx b s s' : Iter b s s' -> Matches (RRep g mn mx b) s s'
+| MRep g mn mx b s s' k : Iter b s k s' -> (N.to_nat mn <= k)%nat -> Matches (RRep g mn mx b) s s'
 | MGrp n b s s' :
     Matches b s s' ->
     Matches (RGrp n b) s (mkSt (st_i s') (st_p s') (st_rest s')
@@ -34,9 +34,9 @@ Inductive Matches : regex -> mst -> mst -> Prop :=
 | MBol ml s : Matches (RBol ml) s s
 | MEol ml s : Matches (REol ml) s s
 | MWordB neg s : Matches (RWordB neg) s s
-with Iter : regex -> mst -> mst -> Prop :=
-| IStop b s : Iter b s s
-| IMore b s s1 s' : Matches b s s1 -> Iter b s1 s' -> Iter b s s'.
+with Iter : regex -> mst -> nat -> mst -> Prop :=     (* exactly k iterations of the body *)
+| IStop b s : Iter b s O s
+| IMore b s s1 k s' : Matches b s s1 -> Iter b s1 k s' -> Iter b s (S k) s'.
 
 Scheme Matches_mind := Induction for Matches Sort Prop
   with Iter_mind := Induction for Iter Sort Prop.
@@ -51,18 +51,18 @@ Definition sound (r : regex) (m : matcher) : Prop :=
 Lemma loop_sound b mb k g mn mx : sound b mb ->
   forall fuel cnt last i p rest c res,
     loop mb k g mn mx fuel cnt last i p rest c = Some res ->
-    exists s', Iter b (mkSt i p rest c) s' /\ kapp k s' = Some res.
+    exists n s', Iter b (mkSt i p rest c) n s' /\ mn <= cnt + N.of_nat n /\ kapp k s' = Some res.
 Proof.
   intros Hb. induction fuel as [|f fuel IH]; intros cnt last i p rest c res H; cbn [loop] in H; [discriminate|].
   assert (More : forall last' res',
      mb (fun j p' r' c' => loop mb k g mn mx fuel (cnt + 1) last' j p' r' c') i p rest c = Some res' ->
-     exists s', Iter b (mkSt i p rest c) s' /\ kapp k s' = Some res').
+     exists n s', Iter b (mkSt i p rest c) n s' /\ mn <= cnt + N.of_nat n /\ kapp k s' = Some res').
   { intros last' res' Hx. apply Hb in Hx as (s1 & M1 & Hx). destruct s1 as [i1 p1 r1 c1]. unfold kapp in Hx. cbn in Hx.
-    apply IH in Hx as (s' & It & Hk). exists s'. split; [|auto]. econstructor; eauto. }
-  assert (Stop : forall res', k i p rest c = Some res' ->
-     exists s', Iter b (mkSt i p rest c) s' /\ kapp k s' = Some res').
-  { intros res' Hk. exists (mkSt i p rest c). split; [constructor|exact Hk]. }
-  destruct (cnt <? mn).
+    apply IH in Hx as (n & s' & It & Hmn & Hk). exists (S n), s'. split; [econstructor; eauto|]. split; [lia|exact Hk]. }
+  assert (Stop : forall res', cnt <? mn = false -> k i p rest c = Some res' ->
+     exists n s', Iter b (mkSt i p rest c) n s' /\ mn <= cnt + N.of_nat n /\ kapp k s' = Some res').
+  { intros res' E Hk. apply N.ltb_ge in E. exists O, (mkSt i p rest c). split; [constructor|]. split; [simpl; lia|exact Hk]. }
+  destruct (cnt <? mn) eqn:E.
   - eapply More; eauto.
   - destruct g.
     + destruct (more_ok mx cnt && negb (same_pos last i)).
@@ -88,7 +88,7 @@ Proof.
   - destruct (exec r1 k i p rest c) eqn:E1.
     + inversion H; subst. apply IHr1 in E1 as (s1 & M1 & Hk). exists s1. split; [apply MAltL; auto|auto].
     + apply IHr2 in H as (s1 & M1 & Hk). exists s1. split; [apply MAltR; auto|auto].
-  - eapply loop_sound in H; eauto. destruct H as (s' & It & Hk). exists s'. split; [constructor; auto|auto].
+  - eapply loop_sound in H; eauto. destruct H as (n & s' & It & Hmn & Hk). exists s'. split; [econstructor; [exact It|lia]|auto].
   - apply IHr in H as (s1 & M1 & H). unfold kapp in H. cbn in H.
     eexists. split; [apply MGrp; exact M1|]. exact H.
   - destruct neg.
@@ -188,7 +188,7 @@ Qed.
 
 Theorem Matches_wf subj :
   (forall r s s', Matches r s s' -> step_ok subj s s') /\
-  (forall b s s', Iter b s s' -> step_ok subj s s').
+  (forall b s k s', Iter b s k s' -> step_ok subj s s').
 Proof.
   apply Matches_Iter_ind; intros; try apply step_refl; try apply step_char.
   - eapply step_trans; eauto.
